@@ -43,6 +43,44 @@ def execute(run, scns, tag, shards=8, timeout=1800):
     return tpath, crashes
 
 
+def segmented(auth=None, cuts=(1, 2, 3)):
+    """Packets that arrive in two TCP segments while other sessions are busy: (a) a long CONNECT (two-byte remaining length) of the
+    22nd..24th connection is cut after 1-3 bytes and every established session pings before the rest arrives; (b) a long PUBLISH of
+    the first session is cut and 21 other clients connect before the rest arrives.  Segmentation is the network's business: each
+    packet must be handled as if it had arrived whole (credentials checked, session served, publish acknowledged and delivered)."""
+    def cred(i):
+        if not auth:
+            return {}
+        e = auth[i % len(auth)]
+        return {"user": e["u"], "pass": e["p"]}
+    out = []
+    n0 = 21
+    for cut in cuts:
+        ops = []
+        for i in range(n0):
+            ops.append(dict({"op": "connect", "c": 1 + i, "n": 1, "client": "early%d" % i, "ka": 6000}, **cred(i)))
+        pings = [{"op": "send", "c": 1 + i, "kind": "PINGREQ"} for i in range(n0)]
+        for j in range(3):
+            c = 30 + j
+            ops.append(dict({"op": "connect", "c": c, "n": 1, "client": "late%d-%s" % (j, "x" * 140), "ka": 6000, "cut": cut + j, "b": pings}, **cred(j)))
+            ops.append({"op": "sub", "c": c, "id": 1, "fs": [{"f": ["seg", "late%d" % j], "q": 1}]})
+            ops.append({"op": "pub", "c": c, "t": ["seg", "late%d" % j], "p": "late-%d-%d" % (cut, j), "q": 1, "r": False, "id": 5})
+        ops.append({"op": "quiesce"})
+        out.append({"nodes": [1], "ops": ops})
+        ops = [dict({"op": "connect", "c": 1, "n": 1, "client": "first", "ka": 6000}, **cred(0)),
+               {"op": "sub", "c": 1, "id": 1, "fs": [{"f": ["seg", "#"], "q": 1}]}]
+        others = [dict({"op": "connect", "c": 2 + i, "n": 1, "client": "other%d" % i, "ka": 6000}, **cred(i + 1)) for i in range(n0)]
+        ops.append({"op": "pub", "c": 1, "t": ["seg", "first"], "p": "first-%d" % cut, "q": 1, "r": False, "id": 7, "size": 300, "cut": cut, "b": others})
+        ops.append({"op": "pub", "c": 2, "t": ["seg", "second"], "p": "second-%d" % cut, "q": 1, "r": False, "id": 8, "size": 200, "cut": cut + 1,
+                    "b": [{"op": "send", "c": 1, "kind": "PINGREQ"}]})
+        ops.append({"op": "quiesce"})
+        out.append({"nodes": [1], "ops": ops})
+    if auth:
+        for s in out:
+            s["auth"] = auth
+    return out
+
+
 def context(scn, line, k=14):
     keep = [e for e in scn[:line] if e["op"] not in ("log.consume", "log.get", "gossip.out", "gossip.deliver", "conn.deadline",
                                                       "ack.ack.call", "ack.ack.ret", "writer.done", "publish.done", "auth")]
